@@ -1,0 +1,12 @@
+//go:build verif
+
+package time
+
+// C09 / C05 / C03: a module's functions are shared by every evaluation in the process (each configuration gets its own
+// module OBJECT, but they all call the same Go functions), so whatever a function keeps in a package-level variable is
+// shared by all VMs. Inventory of this package's variables (a new one needs a disposition: seed C03k kept compiled regular
+// expressions in a package-level map and wrote it under a read lock - two evaluations running at once died with "fatal
+// error: concurrent map writes", which no recover catches) and of its uses of sync mutexes (a function that takes a lock
+// has to become a unit with the lock-balance obligations of contracts/vm/contracts_locks_verif.go).
+//@ scan[C09.pkgvars.modules.time] C09,C05,C03 pkgvars github.com/risor-io/risor/modules/time: 
+//@ scan[C03.locks.modules.time] C03,C09 extcalls sync.(*Mutex).Lock,sync.(*Mutex).Unlock,sync.(*Mutex).TryLock,sync.(*RWMutex).Lock,sync.(*RWMutex).Unlock,sync.(*RWMutex).RLock,sync.(*RWMutex).RUnlock:
